@@ -18,6 +18,12 @@ package shard
 //@   pure
 
 // ---- paging of search results (properties C06, C18) ----
+// The read-transaction body of SearchPoints: of the variables it captures it assigns only
+// finalResults (assumed; the body itself - index search, point lookups - is not under contract).
+//@ func (*Shard).SearchPoints$1
+//@   trusted
+//@   modifies finalResults
+
 //@ func (*Shard).SearchPoints
 //@   property C06 C18
 //@   requires searchRequest.Offset >= 0 && searchRequest.Limit >= 0
